@@ -41,7 +41,7 @@ def obligations(tier):
 MANIFEST = {
     "text": "TIMING_MESSAGE: for every multiset of <=3 counted types over all of int32 and every slot of the table, the reported value is that type's count (0 for unseen types), "
             "ModulePID carries the pid; MESSAGE_TRAFFIC: for every K in the stated set (covering 0, 1, chunk boundaries 63/64/65, 127/128/129) the sub-messages of one interval list each "
-            "seen type exactly once with its exact count and nothing else; statistics messages are not counted. Decided by CrossHair/z3 over the real senders.",
+            "seen type exactly once with its exact count and nothing else; statistics messages are not counted; in the real run() loop under a controlled clock an interval that is closed leaves no count behind for the next one whether or not anybody listened, an open one keeps its start and its counts. Decided by CrossHair/z3 over the real senders.",
     "note": "shadow arrays (association lists for the 10000-slot table) validated against ctypes per run; listener connection is a recorder",
     "design_ref": "DESIGN.md 4.18",
 }
